@@ -1,6 +1,7 @@
 #!/usr/bin/env python3
 """C13 -- the server never modifies the files it serves.  Engine S.
-Monitor over the request pipeline (App::execute and App::handle_request, all controllers, Range / file_ext helpers):
+Monitor over the request pipeline (App::execute and App::handle_request, all controllers, Range / file_ext helpers; and
+Server::process itself on raw / failing input):
 no feasible path reaches a file-mutating primitive (File::create, OpenOptions, fs::{write,remove_*,rename,create_dir*,copy,
 set_permissions}, unix symlink and file_ext's writers, which end in those).  These primitives deliberately have no model:
 reaching one is a terminal state whose path condition is the witness."""
@@ -17,7 +18,35 @@ def plan(t):
                 entries=['execute', 'legacy'])
 
 
+def case_pipeline(prog, params):
+    """the connection pipeline itself (Server::process: read, parse, error answers, logging) under the same mutation monitor:
+    raw requests of arbitrary bytes (incl. invalid UTF-8), read failure, failing application"""
+    import pipeline as PL, c10 as C10
+    ex = PL.new_ex(prog)
+    cons = []
+    reqb, sy = C10.build_request(params['shape'], cons)
+    res = {'violations': [], 'inconclusive': [], 'samples': [], 'kinds': {}, 'fs_ops': 0}
+    kind = params['shape']['kind']
+
+    def term(o):
+        k = 'pipeline:' + outcome_kind(o.outcome); res['kinds'][k] = res['kinds'].get(k, 0) + 1
+        res['fs_ops'] += len(o.world.get('fslog', ()))
+        if o.outcome[0] == 'stop' and o.outcome[1] == 'fs-mutation':
+            r, m = ex.check(o.pc)
+            if r != 'sat': return
+            prim = str(o.outcome[2]).split(' reached')[0]
+            res['violations'].append({'key': 'C13:mutation:%s:pipeline-%s' % (prim, kind), 'text': 'file-mutating primitive reached in Server::process: %s for request %r' % (o.outcome[2], model_bytes(m, reqb)),
+                                      'witness': {'pipeline': True, 'request': model_bytes(m, reqb).hex(), 'what': str(o.outcome[2])[:200]}})
+        elif o.outcome[0] == 'stop' and not o.outcome[1].startswith('domain:') and o.outcome[1] != 'shared-state':
+            res['inconclusive'].append({'status': o.outcome[1], 'error': str(o.outcome[2])[:200]})
+    PL.run_process(ex, reqb, cons, term, stream={'read_fail': True} if kind == 'readfail' else None, app_mode='abstract-fail' if kind == 'apperr' else 'real')
+    res.update(H.ex_summary(ex))
+    res['samples'].append({'case': params, 'kinds': res['kinds']})
+    return res
+
+
 def case(prog, params):
+    if params.get('ob') == 'pipeline': return case_pipeline(prog, params)
     P = plan(H.tier())
     ex = new_ex(prog)
     B = dict(target_cap=params.get('tlen') or 1, content_cap=2, range_cap=P['range_cap'])
@@ -61,6 +90,19 @@ def manifest(root):
 
 def replay_native(chk, w):
     import posixpath
+    if w.get('pipeline'):
+        base = tempfile.mkdtemp(prefix='c13_')
+        try:
+            root = os.path.join(base, 'root'); os.makedirs(root)
+            open(os.path.join(root, 'index.html'), 'w').write('x')
+            before = manifest(base)
+            reqb = bytes.fromhex(w['request'])
+            st, out = chk.oracle.run([('process', [reqb, max(len(reqb), 1)])], cwd=root, env={'RWS_CONFIG_CORS_ALLOW_ALL': 'true'})[0]
+            after = manifest(base)
+            changed = sorted(set(k for k in set(before) | set(after) if before.get(k) != after.get(k)))
+            return {'reproduced': bool(changed), 'changed_entries': changed[:10], 'native': st}
+        finally:
+            shutil.rmtree(base, ignore_errors=True)
     p = w['params']
     base = tempfile.mkdtemp(prefix='c13_')
     try:
@@ -110,6 +152,9 @@ def main():
                     ctype = 'application/x-www-form-urlencoded' if 'url-encoded' in ft else ('multipart/form-data; boundary=b' if 'multipart' in ft else None)
                     cases.append(dict(entry=entry, method=m, fixed_target=ft, tlen=len(ft), first=None, range=rg, ctype=ctype))
     for c in cases[::11]: c['sample'] = True
+    # Server::process itself: raw requests (arbitrary bytes), read failure, failing application
+    for shp in (dict(kind='raw', cap=4 if chk.tier == 'quick' else 5), dict(kind='readfail'), dict(kind='apperr')):
+        cases.append(dict(ob='pipeline', shape=shp))
     results = chk.run_cases(case, cases, label='request sweep (mutation monitor)')
     chk.extra['fs_operations_seen'] = sum(r.get('fs_ops', 0) for r in results)
     chk.finish(replay_fn=lambda v: replay_native(chk, v['witness']), vacuity=lambda: None if chk.extra['fs_operations_seen'] else 'no filesystem operation was ever reached')
